@@ -138,7 +138,12 @@ def _data(rng, shape, kind):
     raise ValueError(kind)
 
 
-def gen_dense(rng, n, kind, shape="random", dmax=3, phys=False, forest=False, scalar=False):
+def _scalar_data(rng, kind):
+    """a rank-0 tensor of the kind (never zero)"""
+    return np.asarray(_data(rng, (1,), kind)).reshape(())
+
+
+def gen_dense(rng, n, kind, shape="random", dmax=3, phys=False, forest=False, scalar=False, isolated=0):
     """one tensor per node of a random tree (forest: the edge in the middle is dropped)"""
     edges = random_tree_edges(rng, n, shape)
     if forest and len(edges) >= 2:
@@ -164,19 +169,30 @@ def gen_dense(rng, n, kind, shape="random", dmax=3, phys=False, forest=False, sc
         rng.shuffle(ix)
         ts.append((ix, _data(rng, [dims[x] for x in ix], kind)))
     name = ["t%d" % (i + 1) for i in range(n)]
+    # single-tensor components of a forest: a tensor bonded to nothing (2-norm: it only carries a
+    # physical label; 1-norm: the dense flavours take no dangling labels, so it is a rank-0 tensor)
+    for _ in range(isolated):
+        if phys:
+            x = "k%d" % len(ts)
+            dims[x] = 2
+            ph.append(x)
+            ts.append(([x], _data(rng, [2], kind)))
+        else:
+            ts.append(((), _scalar_data(rng, kind)))
+        name.append("t%d" % len(ts))
     if scalar:
         ts.append(((), np.array(float(rng.integers(2, 4)))))
-        name.append("t%d" % (n + 1))
+        name.append("t%d" % len(ts))
     return Net(ts, name, "dense", "float" if kind in ("float", "floatc") else kind, ph)
 
 
-def gen_hyper(rng, nt, kind, dmax=2, uniform_dim=True, scalar=False, bonds_only=False):
+def gen_hyper(rng, nt, kind, dmax=2, uniform_dim=True, scalar=False, bonds_only=False, isolated=0):
     """a random factor-graph tree: tensors and labels alternate; labels of degree 1 (dangling),
     2 (bonds) and >= 3 (hyper).  bonds_only: every label on exactly two tensors (the hyper flavours
     compute the messages of any other label by dividing a product, which needs non-vanishing
     entries: signed / complex data is driven on plain bonds only)."""
     if bonds_only:
-        net = gen_dense(rng, nt, kind, dmax=2 if uniform_dim else dmax, scalar=scalar)
+        net = gen_dense(rng, nt, kind, dmax=2 if uniform_dim else dmax, scalar=scalar, isolated=isolated)
         net.gk = "hyper"
         return net
     d0 = int(rng.integers(2, dmax + 1))
@@ -212,6 +228,12 @@ def gen_hyper(rng, nt, kind, dmax=2, uniform_dim=True, scalar=False, bonds_only=
         ix = list(ix)
         rng.shuffle(ix)
         ts.append((ix, _data(rng, [dims[x] for x in ix], kind)))
+    # single-tensor components: a tensor whose labels nobody else holds
+    for _ in range(isolated):
+        ix = ["a%d" % (len(dims) + j) for j in range(int(rng.integers(1, 3)))]
+        for x in ix:
+            dims[x] = d0 if uniform_dim else int(rng.integers(2, dmax + 1))
+        ts.append((ix, _data(rng, [dims[x] for x in ix], kind)))
     name = ["t%d" % (i + 1) for i in range(len(ts))]
     if scalar:
         ts.append(((), np.array(float(rng.integers(2, 4)))))
@@ -219,7 +241,7 @@ def gen_hyper(rng, nt, kind, dmax=2, uniform_dim=True, scalar=False, bonds_only=
     return Net(ts, name, "hyper", "float" if kind in ("float", "floatc") else kind)
 
 
-def gen_lazy(rng, nsites, kind, phys=False, shape="random"):
+def gen_lazy(rng, nsites, kind, phys=False, shape="random", isolated=0):
     """sites of one or two tensors, one or two bonds between neighbouring sites"""
     edges = random_tree_edges(rng, nsites, shape, maxdeg=3)
     parts = {}   # site -> list of label lists
@@ -253,6 +275,21 @@ def gen_lazy(rng, nsites, kind, phys=False, shape="random"):
             rng.shuffle(ix)
             ts.append((ix, _data(rng, [dims[x] for x in ix], kind)))
             name.append("S%d" % s)
+    # single-site components: a site bonded to no other site (one tensor, or two with an inner bond)
+    for j in range(isolated):
+        s2 = nsites + j
+        two = rng.random() < 0.5
+        if phys:
+            x = "k%d" % s2
+            dims[x] = 2
+            ph.append(x)
+            parts2 = [[x, "i%d" % s2], ["i%d" % s2]] if two else [[x]]
+        else:
+            parts2 = [["i%d" % s2], ["i%d" % s2]] if two else [[]]
+        dims["i%d" % s2] = 2
+        for ix in parts2:
+            ts.append((ix, _data(rng, [dims[x] for x in ix], kind) if ix else _scalar_data(rng, kind)))
+            name.append("S%d" % s2)
     return Net(ts, name, "lazy", "float" if kind in ("float", "floatc") else kind, ph)
 
 
